@@ -1,0 +1,49 @@
+//go:build verif
+
+package consensus
+
+// Accessors for the deterministic-simulation harnesses in /verif. This file is only
+// compiled with the build tag "verif"; it adds no behaviour to the shipped binary.
+
+// VerifMsgInfo and VerifTimeoutInfo let a WAL wrapper outside this package inspect the
+// records the state machine writes.
+type (
+	VerifMsgInfo     = msgInfo
+	VerifTimeoutInfo = timeoutInfo
+)
+
+// VerifSetWAL replaces the WAL (also after Start: the repair path in OnStart installs a
+// fresh BaseWAL). Call it only while the receive routine is idle.
+func (cs *State) VerifSetWAL(w WAL) {
+	cs.mtx.Lock()
+	cs.wal = w
+	cs.mtx.Unlock()
+}
+
+// VerifWAL returns the WAL currently in use.
+func (cs *State) VerifWAL() WAL {
+	cs.mtx.RLock()
+	defer cs.mtx.RUnlock()
+	return cs.wal
+}
+
+// VerifRepairWalFile exposes repairWalFile.
+func VerifRepairWalFile(src, dst string) error { return repairWalFile(src, dst) }
+
+// VerifQueueLens reports the lengths of the peer, internal and stats queues.
+func (cs *State) VerifQueueLens() (peer, internal, stats int) {
+	return len(cs.peerMsgQueue), len(cs.internalMsgQueue), len(cs.statsMsgQueue)
+}
+
+// VerifDrainStats empties the stats queue (drained by the consensus reactor in production).
+func (cs *State) VerifDrainStats() int {
+	n := 0
+	for {
+		select {
+		case <-cs.statsMsgQueue:
+			n++
+		default:
+			return n
+		}
+	}
+}
